@@ -30,7 +30,7 @@ SHRINK_CAP = {"quick": 400, "thorough": 2000}
 
 NS_A, NS_D = "http://a/", "http://d.org/"
 POOL = [(NS_A, "i1"), (NS_A, "i2"), (NS_D, "i1"), (NS_D, "i3")]
-KINDS = ["entity", "agent", "activity", "generation", "usage", "derivation"]
+KINDS = ["entity", "agent", "activity", "generation", "usage", "derivation", "specialization", "mention", "membership", "alternate"]
 
 
 class State:
@@ -149,7 +149,10 @@ def apply(s, op, ctx):
                 getattr(c, fac)(ident)
             else:
                 kw = {a: ref for a, t in fargs[:mand]}
-                getattr(c, fac)(identifier=ident if op[5] % 4 == 0 else None, **kw)
+                if fac_id:
+                    getattr(c, fac)(identifier=ident if op[5] % 4 == 0 else None, **kw)
+                else:
+                    getattr(c, fac)(**kw)
             s.paths.add("factory")
             ctx.count("path:factory")
         else:
@@ -238,7 +241,7 @@ def apply(s, op, ctx):
 
 def make_machine(Base):
     class IndexCoherence(Base):
-        @rule(scope=st.integers(0, 5), kind=st.integers(0, 5), ident=st.integers(0, 3), prefix=st.integers(0, 3), via=st.integers(0, 3))
+        @rule(scope=st.integers(0, 5), kind=st.integers(0, 9), ident=st.integers(0, 3), prefix=st.integers(0, 3), via=st.integers(0, 3))
         def add_new_record(self, scope, kind, ident, prefix, via):
             self.do(["rec", scope, kind, ident, prefix, via])
 
